@@ -496,6 +496,10 @@ def run(rep):
     icfg += [dict(inst=dict(kind="sink", mode=m)) for m in (("mcs",) if rep.tier == "quick" else ("mcs", "generational", "topological"))]  # a node that only consumes (pruned)
     rep.configs = rep.configs + icfg
     obs += pmap("props.c13", "worker_instance", icfg, rep.tier)
+    # scheduling fields of the threaded step record (ts_max, ts_end_prev, phase_scheduled = the drift the step was scheduled with, delay, header): the timing-law
+    # scenario of C04 compares them with the values the law used for that very step; its "recorded ..." clauses are record-faithfulness clauses
+    tl = pmap("props.c04", "worker", [dict(rate=10, scheduling=sch, advance=False, n_blocking=nb, n_nonblocking=0, nticks=3) for sch in ("frequency", "phase") for nb in (0, 1)], rep.tier)
+    obs += [o for o in tl if "recorded" in o.get("name", "") or o.get("verdict") == "error"]
     rep.add_all(obs)
 
 
